@@ -43,6 +43,9 @@ void harness (void)
   __CPROVER_assert (lok && k == m, "post2 the list afterwards = the entries that were not successfully expired, order kept");
   __CPROVER_assert (IMP (g_failed_at >= 0, ret == g_oom_wait), "post3 after a failed expiry the walk asks to be re-run after the OOM wait");
   __CPROVER_assert (IMP (g_failed_at < 0 && XL.expire_after <= 0, ret == -1), "post4 infinite timeout, nothing failed: timer off (-1)");
+  int waiting = 0; for (int i = 0; i < 3; i++) if (i < n0 && g_called[i] == 0) waiting = 1;
+  __CPROVER_assert (IMP (g_failed_at < 0 && XL.expire_after > 0 && waiting, ret >= 0 && ret <= 3600 * 1000), "post5 finite timeout and an entry still waiting: the timer stays armed (0 .. one hour), however far away the deadline is - otherwise the call would never time out");
+  __CPROVER_assert (IMP (g_failed_at < 0 && !waiting, ret == -1), "post6 nothing left waiting: timer off");
   if (g_calls == 3 && g_failed_at < 0) REACH ("all-three-expired"); if (g_failed_at == 1) REACH ("second-fails");
   if (XL.expire_after <= 0 && g_calls == 1 && n0 == 3) REACH ("infinite-timeout-callee-gone");
   if (XL.expire_after > 0 && g_calls == 0 && n0 == 3) REACH ("finite-none-due");
